@@ -20,7 +20,36 @@ class UndoMonitor(explore.Monitor):
   check_redo = False
 
   def start(self, e, seed_name):
-    return {"initial": eng.snapshot(e), "stack": []}
+    return {"initial": eng.snapshot(e), "stack": [], "seed": seed_name, "hist": []}
+
+  def pre_state_stale(self, st, now):
+    """Root-cause triage of a failed undo: were the cells that differ already stale BEFORE the
+    bundle (a from-scratch recalculation of the pre-state's own data gives other values there - the
+    subject of C05 and of its recorded findings)?  The pre-state engine is rebuilt by replaying the
+    history so far; the answer is only used when that replay reproduces old() exactly."""
+    import copy
+    try:
+      cells = eng.diff_cells(st["pre"], now)
+      f = eng.new_engine()
+      for b in gen.seed_history(st["seed"]): eng.apply(f, b)
+      for b in st["hist"][:-1]:
+        try: eng.apply(f, copy.deepcopy(b))
+        except Exception: pass
+      try: eng.apply(f, [["Calculate"]])
+      except Exception: pass
+      pre = eng.snapshot(f)
+      if pre != st["pre"]: return False
+      fresh = eng.snapshot(eng.scratch(f))
+      if cells is not None:
+        stale = eng.diff_cells(pre, fresh)
+        if stale is not None:
+          return "cells" if cells and cells <= stale else False
+      # structural difference (rows of summary tables): table granularity
+      differ = lambda a, b: {t for t in set(a) | set(b) if a.get(t) != b.get(t)}
+      changed, stale_tables = differ(pre, now), differ(pre, fresh)
+      return "tables" if changed and changed <= stale_tables else False
+    except Exception:
+      return False
 
   def before(self, st, e, bundle):
     # requires: the document is settled (a Calculate emits nothing).  If an earlier rollback or a
@@ -31,6 +60,8 @@ class UndoMonitor(explore.Monitor):
       st["unsettled"] = st.get("unsettled", 0) + (1 if g.stored else 0)
     except Exception:
       pass
+    import copy
+    st["hist"].append(copy.deepcopy(bundle))
     st["pre"] = eng.snapshot(e)
 
   def after(self, st, e, bundle, group, exc):
@@ -43,9 +74,13 @@ class UndoMonitor(explore.Monitor):
       eng.apply(e, [["ApplyUndoActions", undo]])
     except Exception as ex:
       return [("C01.undo_restores", {"error": "undo raised %r" % (ex,), "undo": undo})]
-    d = eng.diff_snapshots(st["pre"], eng.snapshot(e))
+    now = eng.snapshot(e)
+    d = eng.diff_snapshots(st["pre"], now)
     if d:
-      return [("C01.undo_restores", {"diff": d, "undo": undo, "sig": triage.diff_signature(e, d)})]
+      stale = self.pre_state_stale(st, now)
+      sig = {"cells": "pre-state-stale", "tables": "pre-state-stale-tables"}.get(stale) or \
+          triage.diff_signature(e, d)
+      return [("C01.undo_restores", {"diff": d, "undo": undo, "sig": sig})]
     try:
       g2 = eng.apply(e, [["ApplyDocActions", stored]])
     except Exception as ex:
@@ -73,7 +108,16 @@ class UndoMonitor(explore.Monitor):
       what = triage.error_tag(detail["error"])
       ctx = "+".join(sorted(kinds & {"RenameTable", "RenameColumn", "RemoveTable", "RemoveColumn"}))
       return "%s|%s|%s" % (clause, what, ctx)
-    return "%s|%s" % (clause, detail.get("sig", "unknown"))
+    sig = detail.get("sig", "unknown")
+    if sig in ("stale-sorted-lookup", "stale-lookup"):
+      # which structural change the (shrunk) history needs: several root causes end in a stale
+      # lookup result, and a stale lookup after plain record edits would be a different defect
+      for k in ("ReplaceTableData", "RemoveColumn", "ModifyColumn", "RenameColumn", "RemoveTable",
+                "RenameTable", "AddColumn"):
+        if k in kinds:
+          return "%s|%s|%s" % (clause, sig, k)
+      return "%s|%s|record-edits-only" % (clause, sig)
+    return "%s|%s" % (clause, sig)
 
 
 class C01Monitor(UndoMonitor):
